@@ -117,6 +117,12 @@ def run(ctx, info):
         for _ in range(1 if ctx.quick else 3):
             jobs.append({"opt": nm, "cfg": {"max_cycles": r.choice([3, 5]), "fitness_error": None}, "snapshots": True, "trends": True,
                          "task": search.cont_task(obj=r.choice(["sphere", "step", "linear"]), minmax=r.choice(["min", "max"]), seed=r.randint(0, 10**6))})
+    # the same fidelity on a REUSED instance (a second / third run must record its own history only)
+    for nm in (r.sample(search.all_names(), 16) if ctx.quick else search.all_names()):
+        first = {"task": search.cont_task(obj="sphere", minmax=r.choice(["min", "max"]), seed=r.randint(0, 10**6))}
+        jobs.append({"opt": nm, "cfg": {"max_cycles": r.choice([2, 4]), "fitness_error": None}, "snapshots": True, "trends": True,
+                     "sequence": [first] * r.choice([1, 2]),
+                     "task": search.cont_task(obj=r.choice(["sphere", "linear"]), minmax=r.choice(["min", "max"]), seed=r.randint(0, 10**6))})
     from ..driver import load_findings
     kjobs = [f["replay"]["job"] for f in load_findings() if f.get("property") == "C15" and f.get("status") == "known" and f.get("replay", {}).get("kind") == "job"]
     obs = search.run_jobs(kjobs + jobs)
